@@ -116,6 +116,17 @@ CHECKS = {
             'declared return type (signatures never returning successfully are reported in the evidence).',
             'Trusted: rv/models/seqtype.py (XDM type hierarchy, XPath 3.1 2.5.6 subtyping); schema types, xs:error and list types not generated.',
             'DESIGN.md section 4 (C18)'),
+    'C19': ('fault_enumeration',
+            'fault enumeration with quiescent-point state monitors: simulated installed-locale sets x all collation-call histories of length <= 3; audit hook; thread trials in cold child processes',
+            'For each installed-locale configuration (simulated at the locale.setlocale boundary inside elementpath, plus the real C-only '
+            'process) ALL histories of up to three collation-using evaluations over 9 call kinds are executed; after every evaluation the '
+            'monitors assert LC_COLLATE restored, the collate lock (replaced by an owner-tracking lock that raises instead of blocking) '
+            'not held, decimal context and os.environ unchanged, only ElementPathError raised, and repeated calls give the same answer. '
+            'Environment functions (canary variable), 13 DOCTYPE/entity payloads through parse-xml / parse-xml-fragment (audit hook for '
+            'file/network access), an ambient corpus, and concurrent-vs-sequential Selector trials in fresh child processes complete it.',
+            'Simulated locales (the sandbox has only C/POSIX); thread schedules are sampled (switch interval 1e-6), not enumerated: '
+            'the concurrency clause is exploration-level.',
+            'DESIGN.md section 4 (C19)'),
     'C20': ('exploration',
             'differential runtime monitor: generated XSD schemas and valid instances; typed values vs the schema processor, type tests vs the derivation chain, selection with vs without schema',
             'Generated schemas over the built-in simple types (atomic, list, union, restrictions, simple content with typed attributes, '
